@@ -62,6 +62,12 @@ pub fn validate_entire_schema<TCompilationProfile: CompilationProfile>(
     }
 
     errors.extend(
+        TCompilationProfile::parse_nested_data_model_schema(db)
+            .non_fatal_diagnostics
+            .clone(),
+    );
+
+    errors.extend(
         client_selectable_declaration_map_from_iso_literals(db)
             .non_fatal_diagnostics
             .clone(),
